@@ -198,16 +198,25 @@ def try_to_save_module(hashed_grammar, file_io, module, lines, pickling=True, ca
     if pickling and path is not None:
         try:
             _save_to_file_system(hashed_grammar, path, item, cache_path=cache_path)
-        except PermissionError:
+        except OSError as e:
             # It's not really a big issue if the cache cannot be saved to the
-            # file system. It's still in RAM in that case. However we should
-            # still warn the user that this is happening.
+            # file system (no permission, full disk, ...). It's still in RAM in
+            # that case. However we should still warn the user that this is
+            # happening.
+            if isinstance(e, PermissionError):
+                reason = 'permission denied'
+            else:
+                reason = str(e)
             warnings.warn(
-                'Tried to save a file to %s, but got permission denied.' % path,
+                'Tried to save a file to %s, but got %s.' % (path, reason),
                 Warning
             )
         else:
-            _remove_cache_and_update_lock(cache_path=cache_path)
+            try:
+                _remove_cache_and_update_lock(cache_path=cache_path)
+            except OSError:
+                # Cleaning up is not important enough to make parsing fail.
+                pass
 
 
 def _save_to_file_system(hashed_grammar, path, item, cache_path=None):
